@@ -7,6 +7,7 @@ command is first traced, then re-run from the same saved state once per
 modification index (killed before it) and once per operation index (made to
 fail).  The model's effect trace is compared with the implementation's."""
 import json
+import hashlib
 import os
 import random
 import re
@@ -72,6 +73,12 @@ def scenarios():
         ("switch-c", two, c_switch_create(b"feat")),
         ("switch-long-name", br + [c_branch(b"release-candidate-2026")], c_switch(b"release-candidate-2026")),
         ("config-long-value", [c_init(), c_config(b"user.name", b"N")], c_config(b"user.name", b"A considerably longer name than before")),
+        ("config-add-key", [c_init(), c_config(b"user.name", b"N"), c_config(b"user.email", b"n@x.yy")],
+         c_config(b"core.editor", b"vi")),
+        ("config-global-add-key", [c_init(), c_config(b"user.name", b"G", glob=True), c_config(b"user.email", b"g@x.yy", glob=True)],
+         c_config(b"core.editor", b"vi", glob=True)),
+        ("commit-two-identities", [c_config(b"user.name", b"Glo Bal", glob=True), c_config(b"user.email", b"g@x.yy", glob=True)] + b[:7],
+         c_commit(b"first, local identity wins")),
         ("reset-soft", two, c_reset("soft", b"HEAD@{1}")),
         ("reset-mixed", two, c_reset("mixed", b"HEAD@{1}")),
         ("reset-hard", two + [Edit("rmtree", b"d")], c_reset("hard", b"HEAD@{1}")),
@@ -218,6 +225,33 @@ def window(ops_done, next_op, sb_root):
 # Call sites of recorded findings.  The truncate-then-write windows of HEAD, branch files, the index, object
 # files and the config files were repaired (temporary file + rename), so a window there is a violation again.
 KNOWN_SITES = {}
+
+
+_SIGN_TIME = re.compile(rb"(?m)^((?:author|committer) .*) \d+ ([+-]\d{4})$")
+
+
+def result_canon(s, before):
+    """The observable result of a command for 'exactly the result it would have produced without the
+    failure' (C16): every region of the repository, the work tree and both configuration files, where the
+    one thing two runs may legitimately differ in -- the second on the clock -- is masked: a commit created
+    by the command is named by its content with the time stamps blanked, and journal time stamps are T."""
+    def mpay(p):
+        return _SIGN_TIME.sub(rb"\1 T \2", p) if p is not None and p.startswith(b"commit ") else p
+    names = {}
+    for k, p in s.objects.items():
+        if k in before.objects or not isinstance(k, bytes) or len(k) != 20:
+            continue
+        names[k.hex().encode()] = b"<new:" + hashlib.sha1(mpay(p) or b"<none>").hexdigest().encode() + b">"
+    def ren(raw):
+        if raw is None:
+            return None
+        return re.sub(rb"[0-9a-f]{40}", lambda m: names.get(m.group(0), m.group(0)), raw)
+    objs = sorted((names.get(k.hex().encode(), k) if isinstance(k, bytes) and len(k) == 20 else k, ren(mpay(p)) or b"<none>")
+                  for k, p in s.objects.items())
+    return {"files": s.files, "dirs": sorted(s.dirs), "head": s.head_raw,
+            "refs": {n: ren(v) for n, v in s.refs.items()}, "index": s.index_raw, "objects": objs,
+            "hlog": ren(core.mask_log(s.hlog)), "blogs": {n: ren(core.mask_log(v)) for n, v in s.blogs.items()},
+            "lcfg": s.lcfg, "gcfg": s.gcfg}
 
 
 def reach_fsck(s):
@@ -396,10 +430,7 @@ def run_scenario(shim, sbase, name, setup, target, mode, stats, rng, model_ok, t
                 if res.cls in ("panic", "timeout"):
                     probs.append("%s under an injected failure: %r" % (res.cls, res.err[:160]))
                 if res.cls == "ok":
-                    same = (s2.files == after.files and s2.dirs == after.dirs and set(s2.refs) == set(after.refs)
-                            and s2.index_raw == after.index_raw and s2.head_raw == after.head_raw
-                            and len(s2.objects) == len(after.objects)
-                            and core.mask_log(s2.hlog) is not None if after.hlog is not None else True)
+                    same = result_canon(s2, before) == result_canon(after, before)
                     if not same and op["what"] not in ("mkdir",):
                         probs.append("exit 0 although %s of %s failed and the result differs from the fault-free run" % (op["what"], cls))
                 f = reach_fsck(s2)
